@@ -34,6 +34,7 @@ type roundCfg struct {
 	syncOps          bool     // a round may end with the authoritative state of the round being merged in (MergeDB)
 	readSets         bool     // "read the pending change set" (GetDeletes + GetChanges of the open transaction, else of the block trie) is an event
 	forkSwitch       bool     // "the round just saved is abandoned and computed again on the previous round's state" (same version saved twice) is an event
+	failedRecord     bool     // "the save's last write (the dead-node record) is rejected by the store, the block is given up and the round is computed again" is an event
 	syncOlder        bool     // with syncOps: the authoritative state was computed one version earlier than the adopting trie's version (catching up)
 }
 
@@ -60,6 +61,8 @@ func (e rEvent) String() string {
 		return fmt.Sprintf("MergeDB(full state of: previous round + Delete(%q))", e.P)
 	case 'q':
 		return "read the pending change set (GetDeletes, GetChanges)"
+	case 'F':
+		return "save round, the store rejects the last write (the dead-node record): the block is given up, the round is computed again"
 	case 'f':
 		return "fork switch: the round just saved is abandoned, its version is computed and saved again on the previous state"
 	case 'Y':
@@ -81,6 +84,9 @@ func (c roundCfg) events() []rEvent {
 	evs = append(evs, rEvent{K: 'm'}, rEvent{K: 'x'}, rEvent{K: 'S'})
 	if c.forkSwitch {
 		evs = append(evs, rEvent{K: 'f'})
+	}
+	if c.failedRecord {
+		evs = append(evs, rEvent{K: 'F'})
 	}
 	if c.readSets {
 		evs = append(evs, rEvent{K: 'q'})
@@ -108,6 +114,8 @@ type rWorld struct {
 	reads     int    // "read the pending change set" events in the current round (capped): reads change nothing the key shows
 	readMarks string // where in the round they happened (transaction number / operations so far): part of the state key
 	c         roundCfg
+	failedSaves                    int // 'F' events so far (the store object has seen a failed write): part of the state key
+	lastSaveWrites, lastNodeWrites int // device writes of the last save (all / those made by SaveChanges)
 	dev       string
 	pn        *util.PNodeDB
 	ver       int64
@@ -257,6 +265,22 @@ func (w *rWorld) apply(e rEvent, judge bool) (fail string) {
 		w.startRound()
 		return ""
 	}
+	if e.K == 'F' {
+		devc := grocksdb.GetDevice(w.dev)
+		deletes := w.B.GetDeletes()
+		if err := w.B.SaveChanges(context.Background(), w.pn, false); err != nil {
+			return fmt.Sprintf("SaveChanges: %v", err)
+		}
+		devc.SetFailAt(devc.Len())
+		err := w.pn.RecordDeadNodes(deletes, w.ver)
+		devc.SetFailAt(-1)
+		if err == nil {
+			return "the store rejected the write of the dead-node record but RecordDeadNodes returned nil"
+		}
+		w.failedSaves++
+		w.startRound() // same version, same previous root: this block is given up
+		return ""
+	}
 	if e.K == 'q' && w.reads < 2 {
 		w.reads++
 		w.readMarks += fmt.Sprintf("@%d.%d", w.txns, w.tops)
@@ -318,12 +342,14 @@ func (w *rWorld) apply(e rEvent, judge bool) (fail string) {
 	if err := w.B.SaveChanges(context.Background(), w.pn, false); err != nil {
 		return fmt.Sprintf("SaveChanges: %v", err)
 	}
+	w.lastNodeWrites = devc.Len() - idx0
 	if !(w.c.skipEmptyRecords && len(deletes) == 0) {
 		if err := w.pn.RecordDeadNodes(deletes, w.ver); err != nil {
 			return fmt.Sprintf("RecordDeadNodes: %v", err)
 		}
 	}
 	idx1 := devc.Len()
+	w.lastSaveWrites = idx1 - idx0
 	w.saved = append(w.saved, savedRound{ver: w.ver, root: w.B.GetRoot(), model: copyMap(w.model), dead: hexKeys(deletes)})
 	if judge {
 		log := devc.Snapshot()
@@ -448,14 +474,15 @@ func (w *rWorld) judgeSave(log []grocksdb.Rec, idx0, idx1 int) string {
 }
 
 // judgeFailedWrites: injected write errors inside the save (evaluated on a separately replayed world).
-func (w *rWorld) saveWithFailAt(j int) string {
+// nodeWrites: how many of the save's writes SaveChanges makes (the rest is the dead-node record).
+func (w *rWorld) saveWithFailAt(j, nodeWrites int) string {
 	devc := grocksdb.GetDevice(w.dev)
 	idx0 := devc.Len()
 	devc.SetFailAt(idx0 + j)
 	deletes := w.B.GetDeletes()
 	err1 := w.B.SaveChanges(context.Background(), w.pn, false)
 	var err2 error
-	if err1 == nil {
+	if err1 == nil && !(w.c.skipEmptyRecords && len(deletes) == 0) {
 		err2 = w.pn.RecordDeadNodes(deletes, w.ver)
 	}
 	devc.SetFailAt(-1)
@@ -463,14 +490,42 @@ func (w *rWorld) saveWithFailAt(j int) string {
 	if err1 == nil && err2 == nil {
 		return fmt.Sprintf("write %d of the save failed in the device but neither SaveChanges nor RecordDeadNodes returned an error", j)
 	}
-	if j == 0 && err1 == nil {
-		return "the node batch write failed in the device but SaveChanges returned nil"
+	if j < nodeWrites && err1 == nil {
+		return "a node batch write failed in the device but SaveChanges returned nil"
 	}
 	pn, p := openLog(devc.Snapshot())
-	defer resetDev(p)
 	for _, s := range w.saved {
 		if f := complete(pn, s, w.c.paths); f != "" {
+			resetDev(p)
 			return fmt.Sprintf("after a failed write %d in the save of round %d an earlier root is damaged: %s", j, w.ver, f)
+		}
+	}
+	resetDev(p)
+	// the caller tries again, with the same trie and the same store object: now everything is written
+	deletes = w.B.GetDeletes()
+	if err := w.B.SaveChanges(context.Background(), w.pn, false); err != nil {
+		return fmt.Sprintf("write %d of the save of round %d failed (reported: %v / %v); the save tried again on the same objects returned %v", j, w.ver, err1, err2, err)
+	}
+	if !(w.c.skipEmptyRecords && len(deletes) == 0) {
+		if err := w.pn.RecordDeadNodes(deletes, w.ver); err != nil {
+			return fmt.Sprintf("write %d of the save of round %d failed (reported: %v / %v); RecordDeadNodes tried again on the same objects returned %v", j, w.ver, err1, err2, err)
+		}
+	}
+	w.saved = append(w.saved, savedRound{ver: w.ver, root: w.B.GetRoot(), model: copyMap(w.model), dead: hexKeys(deletes)})
+	log := devc.Snapshot()
+	when := fmt.Sprintf("write %d of the save of round %d failed (reported: %v / %v) and the save was tried again on the same objects, which reported success; ", j, w.ver, err1, err2)
+	if w.c.c05 {
+		if f := w.judgeDeadAndPrune(log); f != "" {
+			return when + f
+		}
+		return ""
+	}
+	pn, p = openLog(log)
+	defer resetDev(p)
+	w.stats.reopenings++
+	for _, s := range w.saved {
+		if f := complete(pn, s, w.c.paths); f != "" {
+			return when + "reopened store: " + f
 		}
 	}
 	return ""
@@ -616,7 +671,7 @@ func (w *rWorld) key() string {
 	if w.T != nil {
 		fmt.Fprintf(&sb, "T:%s#%s#%d", mk(w.tmodel), tk(w.T), w.tops)
 	}
-	fmt.Fprintf(&sb, "txns=%d reads=%d%s", w.txns, w.reads, w.readMarks)
+	fmt.Fprintf(&sb, "txns=%d reads=%d%s failed=%d", w.txns, w.reads, w.readMarks, w.failedSaves)
 	return sb.String()
 }
 
@@ -658,10 +713,20 @@ func runRounds(rep *rt.Report, c roundCfg, deadline time.Time, agg *crashStats) 
 					rounds++
 					txns = 0
 					synced = false
+				case 'F':
+					open, txns, synced = false, 0, false
 				}
 			}
 			if evs[op].K == 'f' {
 				return fresh && forks == 0
+			}
+			if evs[op].K == 'F' {
+				for _, x := range h {
+					if evs[x].K == 'F' {
+						return false // once per history
+					}
+				}
+				return !open && !synced && rounds < c.rounds
 			}
 			if evs[op].K == 'q' {
 				n := 0
@@ -696,12 +761,16 @@ func runRounds(rep *rt.Report, c roundCfg, deadline time.Time, agg *crashStats) 
 				}
 				return seq.Outcome{Verdict: seq.Violation, Msg: f}
 			}
-			if !c.c05 && len(h) > 0 && evs[h[len(h)-1]].K == 'S' {
+			if len(h) > 0 && evs[h[len(h)-1]].K == 'S' {
 				// injected write failures: each on its own replayed world
-				for j := 0; j < 2; j++ {
+				j0 := 0
+				if c.c05 {
+					j0 = w.lastNodeWrites // C05: only the dead-node record's write (the node writes are C04's)
+				}
+				for j := j0; j < w.lastSaveWrites; j++ {
 					w2, f2, _ := build(h[:len(h)-1], false)
 					if f2 == "" {
-						f2 = w2.saveWithFailAt(j)
+						f2 = w2.saveWithFailAt(j, w.lastNodeWrites)
 					}
 					w2.close()
 					w.stats.failPoints += w2.stats.failPoints
@@ -820,6 +889,9 @@ func C05(tier rt.Tier) int {
 			// a version saved twice: the first attempt of a round is abandoned (fork switch) and the round saved again, possibly as an idle round
 			{name: "fork-switch", initial: pfPaths[:2], paths: pfPaths[:3], vals: []string{"x", "y"}, rounds: 3, txnOps: 1, maxTxns: 1, depth: 9, c05: true, forkSwitch: true},
 			// somebody reads the pending deletes/changes in the middle of a round
+			// the store rejects the write of a round's dead-node record; that block is given up and the round is
+			// computed again (possibly differently) with the same store object
+			{name: "failed-record-then-recomputed", initial: pfPaths[:2], paths: pfPaths[:3], vals: []string{"x"}, rounds: 3, txnOps: 1, maxTxns: 1, depth: 9, c05: true, failedRecord: true},
 			{name: "reads-of-pending-sets", initial: []string{"0a11", "0b22"}, paths: []string{"0a11", "0c33", "0d44"}, vals: []string{"x"}, rounds: 1, txnOps: 4, maxTxns: 2, depth: 9, c05: true, readSets: true},
 			// one path, many rounds: a long history of the same few nodes dying and coming back
 			{name: "1path-6rounds", initial: []string{"0b22"}, paths: pfPaths[:1], vals: []string{"x", "y"}, rounds: 6, txnOps: 1, maxTxns: 1, depth: 18, c05: true},
